@@ -316,8 +316,8 @@ impl std::str::FromStr for Deb822 {
                                     // ignore comments
                                     tokens.next();
                                 }
-                                Some((SyntaxKind::NEWLINE, n)) => {
-                                    current_paragraph.last_mut().unwrap().value.push_str(n);
+                                Some((SyntaxKind::NEWLINE, _)) => {
+                                    current_paragraph.last_mut().unwrap().value.push('\n');
                                     tokens.next();
                                     break;
                                 }
@@ -334,11 +334,12 @@ impl std::str::FromStr for Deb822 {
                         }
                     }
 
-                    // Trim the trailing newline
-                    assert_eq!(
-                        current_paragraph.last_mut().unwrap().value.pop(),
-                        Some('\n')
-                    );
+                    // Trim the trailing newline (absent when the input ends
+                    // in the middle of a continuation line)
+                    let value = &mut current_paragraph.last_mut().unwrap().value;
+                    if value.ends_with('\n') {
+                        value.pop();
+                    }
                 }
                 SyntaxKind::VALUE => {
                     return Err(Error::UnexpectedToken(k, t.to_string()));
